@@ -26,11 +26,11 @@ SEVS = ['Error', 'Warning', 'Info', 'Hint']
 SEV_ALPHABET = sorted(set(ord(c) for c in 'errorwarninginfohintERWIH ') | {32})
 
 
-def mk_violation(prog, I, vid, sev_variant):
+def mk_violation(prog, I, vid, sev_variant, code=None):
     sev = Enum('BlockSeverity', prog.variant_index('BlockSeverity', sev_variant), sev_variant)
     return mk_struct(prog, 'Violation',
                      range=mk_struct(prog, 'ViolationRange', start=position(prog, 1, 1), end=position(prog, 1, 2)),
-                     code=new_string(I, ('v%d' % vid).encode()), message=new_string(I, b'm'),
+                     code=new_string(I, (code or 'v%d' % vid).encode()), message=new_string(I, b'm%d' % vid),
                      severity=sev, data=NONE)
 
 
@@ -160,7 +160,13 @@ def run_merge(task):
                     n = 2 if I.branch(I.fresh_bool('two_%d_%d' % (v, fi))) else 1
                     plan[v][fi] = list(range(vid, vid + n))
                     vid += n
-        holder.update(plan=plan, fails=fails)
+        # twins: two violations with the same code and the same range in one file (two nested blocks that
+        # fail on the same line) are still two violations
+        codes = {}
+        if len(plan) >= 2 and 0 in plan[0] and 0 in plan[1] and I.branch(I.fresh_bool('twin')):
+            codes[plan[1][0][0]] = 'v%d' % plan[0][0][0]
+            out['cover']['twin violations'] = 1
+        holder.update(plan=plan, fails=fails, codes=codes)
 
         def validate_stub(I2, a, ci, dt):
             me = I2.deref_value(a[0])
@@ -171,7 +177,7 @@ def run_merge(task):
                 return Err(Opaque('anyhow', {'ctx': [], 'src': 'validator %d failed' % v}))
             ents = []
             for fi, ids in plan[v].items():
-                ents.append(Tuple(new_string(I2, b'f%d.py' % fi), VecVal([mk_violation(prog, I2, i, 'Error') for i in ids])))
+                ents.append(Tuple(new_string(I2, b'f%d.py' % fi), VecVal([mk_violation(prog, I2, i, 'Error', codes.get(i)) for i in ids])))
             return Ok(MapVal(ents, 'HashMap'))
 
         I.stubs['ValidatorSync::validate'] = validate_stub
@@ -193,7 +199,7 @@ def run_merge(task):
             return
         roles.add(role)
         out['violations'].append(dict(role=role, summary=summary, plan={str(k): {str(a): b for a, b in v.items()} for k, v in holder['plan'].items()},
-                                      fails=holder['fails'], vorder=list(vorder), order=list(order), nasync=nasync))
+                                      fails=holder['fails'], vorder=list(vorder), order=list(order), nasync=nasync, twin=bool(holder.get('codes'))))
 
     for I, pk, val in explore(prog, models.M, run_path, stats=stats, max_paths=200000):
         if pk == 'panic':
@@ -219,7 +225,7 @@ def run_merge(task):
         want = {}
         for v, files in plan.items():
             for fi, ids in files.items():
-                want.setdefault('f%d.py' % fi, []).extend('v%d' % i for i in ids)
+                want.setdefault('f%d.py' % fi, []).extend(holder['codes'].get(i, 'v%d' % i) for i in ids)
         want = {k: sorted(v) for k, v in want.items()}
         if got != want:
             viol('merged-report-loses-or-duplicates-violations', 'merged %s, expected %s' % (got, want))
@@ -496,6 +502,16 @@ def confirm(binary, v, idx):
             v['replay'] = save_replay(PROP, '%s-%d' % (v['role'], idx), files, "'**/*.py'",
                                       'expected %s; %s' % ('a failed run (non-zero, no diagnostics)' if want_fail else 'diagnostics', v['summary']), v)
         return v
+    if 'plan' in v and v.get('twin'):
+        files = {'f0.py': b'# <block name="outer" keep-sorted>\n# <block name="inner" keep-sorted>\nb\na\n# </block>\n# </block>\n'}
+        r = run_scan(binary, files, ['**'])
+        ds = (r['diags'] or {}).get('f0.py', [])
+        v['observed'] = dict(code=r['code'], diagnostics=[(d.get('code'), d['range']['start']['line']) for d in ds])
+        if len([d for d in ds if d.get('code') == 'keep-sorted']) != 2:
+            v['confirmed'] = True
+            v['replay'] = save_replay(PROP, '%s-%d' % (v['role'], idx), files, "'**'",
+                                      'expected two keep-sorted diagnostics (outer and inner block fail on the same line); ' + v['summary'], v)
+        return v
     if 'plan' in v:
         # two validators reporting on the same file: keep-sorted and keep-unique blocks in one file
         files = {'f0.py': b'# <block name="a" keep-sorted>\nb\na\n# </block>\n# <block name="b" keep-unique>\na\na\n# </block>\n'
@@ -607,7 +623,7 @@ def main(tier):
                      'stderr, to_writer_pretty, write_fmt and process::exit are recording stubs'],
         stubs=['std::io::stderr / Stderr::lock', 'serde_json::to_writer_pretty (records its argument)', 'Write::write_fmt', 'process::exit (ends the path)',
                'ValidatorSync::validate for model validators in the merge harness'],
-        must_cover=['main', 'exit0', 'exit1', 'merge-ok', 'merge-err', 'merge-async', 'two validators on one file', 'parsed', 'rejected', 'default', 'list'],
+        must_cover=['main', 'exit0', 'exit1', 'merge-ok', 'merge-err', 'merge-async', 'twin violations', 'two validators on one file', 'parsed', 'rejected', 'default', 'list'],
         explanation='exit code and printed map compared with the severities chosen by the solver on every path; merged map compared with the union of the validators\' maps under several iteration orders')
 
 
